@@ -339,10 +339,13 @@ def run_impl(case):
     def obj_tree(node):
         if not node.Children:
             return ("L", name_idx(node.Name))
-        return ("N", [(obj_tree(ch), ch.Length) for ch in node.Children])
+        # Length is the printed decimal parsed to a double; hand over its shortest decimal form
+        # (differs from the double by < 1e-16, covered by obj_slack in TreeBuildExec.v)
+        return ("N", [(obj_tree(ch), None if ch.Length is None else repr(float(ch.Length)))
+                      for ch in node.Children])
     # the Newick the tree objects serialise to (standard escaping: blank <-> '_', quoted labels literal)
-    objs_len = [obj_tree(o) for o in (o_len, o_rt)] + [parse_newick(str(o_len), names, foreign, standard=True)]
-    objs_top = [obj_tree(o_top), parse_newick(str(o_top), names, foreign, standard=True)]
+    objs_len = [obj_tree(o_len), parse_newick(str(o_len), names, foreign, standard=True)]
+    objs_top = [obj_tree(o_top)]
     tips = []
     for o in (o_len, o_top, o_rt):
         tips.append([name_idx(x) for x in o.getTipNames()])
